@@ -14,9 +14,11 @@
 (*   Cert    the cert / precert callback got entry index      (mode scan)  *)
 (*   Stop / Cancel   the test is about to call Fetcher.Stop / cancel ctx   *)
 (*   Return  Run / Scan returned                                           *)
-(* Everything else is silent: the generator's steps, which worker received *)
-(* which range, context checks, the moment a Stop / Cancel takes effect,   *)
-(* and in mode "scan" the fetch callback itself.  TLC searches for a       *)
+(* (Stop and Cancel are logged and performed under the same mutex, so the   *)
+(* log order is the real order.)  Everything else is silent: the           *)
+(* generator's steps, which worker received which range, the context check *)
+(* that precedes a request, and in mode "scan" the fetch callback itself.  *)
+(* TLC searches for a                                                      *)
 (* placement of the silent steps that explains the log; if there is none,  *)
 (* the real code did something Fetcher.tla does not allow (a request for a *)
 (* range nobody owes, a remainder that does not continue where the reply   *)
@@ -27,12 +29,11 @@ EXTENDS Fetcher, Json, IOUtils
 Trace == ndJsonDeserialize(IOEnv.TRACE_FILE)
 
 VARIABLES l,          \* next line of Trace
-          stopReq,    \* Stop logged, effect not yet placed
-          cancelReq,  \* Cancel logged, effect not yet placed
+          checked,    \* workers that have passed the context check of the loop head and not yet sent the request
           scan,       \* [mode, kind, sel] of the current run
           inflight    \* mode scan: selected entries flattened and not yet reported by a callback
 
-xvars == <<stopReq, cancelReq, scan, inflight>>
+xvars == <<checked, scan, inflight>>
 tvars == <<fvars, l, xvars>>
 
 Ev(name) == l <= Len(Trace) /\ Trace[l].ev = name
@@ -46,7 +47,7 @@ TraceInit ==
   /\ Len(Trace) >= 1 /\ Trace[1].ev = "Reset"
   /\ InitWith(CfgOf(Trace[1]))
   /\ l = 2
-  /\ stopReq = FALSE /\ cancelReq = FALSE
+  /\ checked = {}
   /\ scan = ScanOf(Trace[1])
   /\ inflight = {}
   /\ TLCSet(1, 1)
@@ -65,7 +66,7 @@ TraceReset ==
      /\ cnt' = [i \in Indices |-> 0]
      /\ delivered' = <<>> /\ stopped' = FALSE /\ cancelled' = FALSE /\ errs' = 0
      /\ returned' = "no" /\ last' = None
-  /\ stopReq' = FALSE /\ cancelReq' = FALSE
+  /\ checked' = {}
   /\ scan' = ScanOf(E)
   /\ inflight' = {}
   /\ l' = l + 1
@@ -80,14 +81,22 @@ TraceSTH ==
   /\ IF gpc = "prepare"
        THEN IF E.err = "" THEN E.size = logSize /\ Prepare ELSE PrepareFails(E.err)
        ELSE IF E.err = "" THEN E.size = logSize /\ (STHAccept \/ STHReject)
-            ELSE IF E.err = "ctx" THEN gpc = "sthwait" /\ (stopReq \/ cancelReq) /\ UNCHANGED fvars
+            ELSE IF E.err = "ctx" THEN gpc = "sthwait" /\ stopped /\ UNCHANGED fvars
             ELSE STHError(E.err)
   /\ l' = l + 1 /\ UNCHANGED xvars
 
+\* silent: the loop-head context check of a worker, passed
+Check(w) ==
+  /\ wpc[w] = "loop" /\ ~cancelled /\ w \notin checked
+  /\ checked' = checked \cup {w}
+  /\ UNCHANGED <<fvars, l, scan, inflight>>
+
 TraceReq ==
   /\ Ev("Req")
-  /\ \E w \in Workers : wrng[w] = Rng(E.start, E.end) /\ Request(w)
-  /\ l' = l + 1 /\ UNCHANGED xvars
+  /\ \E w \in Workers : /\ wrng[w] = Rng(E.start, E.end)
+                        /\ IF w \in checked THEN Send(w) ELSE Request(w)
+                        /\ checked' = checked \ {w}
+  /\ l' = l + 1 /\ UNCHANGED <<scan, inflight>>
 
 TraceRsp ==
   /\ Ev("Rsp")
@@ -108,26 +117,22 @@ DeliverScan(w) ==
   /\ scan.mode = "scan" /\ wpc[w] = "got"
   /\ inflight' = inflight \cup {i \in wrng[w].s..(wrng[w].s + wgot[w] - 1) : scan.sel[i + 1] = 1}
   /\ Deliver(w)
-  /\ UNCHANGED <<l, stopReq, cancelReq, scan>>
+  /\ UNCHANGED <<l, checked, scan>>
 
 TraceCert ==
   /\ Ev("Cert") /\ scan.mode = "scan"
   /\ E.index \in inflight
   /\ E.kind = KindName(scan.kind[E.index + 1])
   /\ inflight' = inflight \ {E.index}
-  /\ l' = l + 1 /\ UNCHANGED <<fvars, stopReq, cancelReq, scan>>
+  /\ l' = l + 1 /\ UNCHANGED <<fvars, checked, scan>>
 
 TraceStop ==
-  /\ Ev("Stop") /\ stopReq' = TRUE
-  /\ l' = l + 1 /\ UNCHANGED <<fvars, cancelReq, scan, inflight>>
+  /\ Ev("Stop") /\ Stop
+  /\ l' = l + 1 /\ UNCHANGED xvars
 
 TraceCancel ==
-  /\ Ev("Cancel") /\ cancelReq' = TRUE
-  /\ l' = l + 1 /\ UNCHANGED <<fvars, stopReq, scan, inflight>>
-
-\* silent: the moment the cancellation becomes visible to the goroutines
-StopEffect == stopReq /\ Stop /\ UNCHANGED <<l, xvars>>
-CancelEffect == cancelReq /\ Cancel /\ UNCHANGED <<l, xvars>>
+  /\ Ev("Cancel") /\ Cancel
+  /\ l' = l + 1 /\ UNCHANGED xvars
 
 TraceReturn ==
   /\ Ev("Return")
@@ -141,8 +146,7 @@ Silent ==
   \/ (GenRange \/ GenQuit) /\ UNCHANGED <<l, xvars>>
   \/ \E w \in Workers : (LowestIdle(w) /\ Take(w)) /\ UNCHANGED <<l, xvars>>
   \/ \E w \in Workers : (Abort(w) \/ WorkerExit(w)) /\ UNCHANGED <<l, xvars>>
-  \/ \E w \in Workers : DeliverScan(w)
-  \/ StopEffect \/ CancelEffect
+  \/ \E w \in Workers : DeliverScan(w) \/ Check(w)
 
 TraceNext == \/ TraceReset \/ TracePublish \/ TraceSTH \/ TraceReq \/ TraceRsp \/ TraceBatch \/ TraceCert
              \/ TraceStop \/ TraceCancel \/ TraceReturn
@@ -151,7 +155,7 @@ TraceNext == \/ TraceReset \/ TracePublish \/ TraceSTH \/ TraceReq \/ TraceRsp \
 TraceSpec == TraceInit /\ [][TraceNext]_tvars
 
 TraceView == <<cfg, logSize, sth, endIndex, cursor, gpc, slot, wpc, wrng, wgot, cnt, stopped, cancelled, returned,
-               l, stopReq, cancelReq, inflight>>
+               l, checked, inflight>>
 
 HighWater == TLCSet(1, IF TLCGet(1) < l THEN l ELSE TLCGet(1))
 
